@@ -32,6 +32,10 @@ def stages(tier, seed, bins):
         if em == "dense" and rnd.random() < 0.2:
             c["q"] = max(1, min(D, rnd.choice([td, td + 1])))
         cases.append(c)
+    # sizes beyond any "small problem" switch an implementation may have (size-gated code paths, e.g. `if (N > 1000)`)
+    for N in ([1100, 3000] if tier != "thorough" else [1001, 1100, 3000, 10000]):
+        cases.append(base(rnd, mode="pca", method="pca", N=N, D=8, td=3, data="mix", q=8, offset=rnd.choice([0, 10]), em="dense", cross=0, timeout=1200,
+                          ticks=0))
     return [dict(name="pca", exe=bins["spectral"], cases=finish(cases, "p"), timeout=300)]
 
 
